@@ -8,7 +8,7 @@
     lr.Parser.Parse / ParseAndBuildAST, for every grammar, table and input. *)
 From Coq Require Import List ZArith.
 From Algo.Grammar Require Import CFG.
-From Algo.C11 Require Import Model ModelPrec ModelSLR ModelLR1 Spec Proofs ProofsTerm ProofsOracle ProofsPrec ProofsPrecExpr ProofsLR0 ProofsSLR ProofsCLR ProofsLALR ProofsChain ProofsChain2 ProofsFuel.
+From Algo.C11 Require Import Model ModelPrec ModelSLR ModelLR1 Spec Proofs ProofsTerm ProofsOracle ProofsPrec ProofsPrecExpr ProofsLR0 ProofsSLR ProofsCLR ProofsLALR ProofsChain ProofsChain2 ProofsFuel ProofsGen ProofsClosure1 ProofsComplete.
 Import ListNotations.
 
 (** Callbacks.  [Parse(tokenF, prodF)] takes two optional callbacks (either may be nil) and
@@ -117,10 +117,12 @@ Proof. intros ops ls o1 o2. apply prec_grouping. Qed.
     - the chain SLR ok => LALR ok => LR(1) ok: THEOREM on the modelled constructions
       ([C11_chain]; only premise: the LR(1) collection completes within the given fuel), tied to the Go code by the same table equality and
       additionally checked per instance on the Go verdicts;
-    - completeness (every sentence is accepted; "rejected => not a sentence"), hence also
-      agreement of the accepted languages: NOT proved (it needs the LR correctness theorem: valid
-      items, exact FOLLOW, determinism); searched per instance against the oracle [lang_upto],
-      which is proved exact up to its bound, and against witnessed longer sentences;
+    - completeness (every sentence is accepted; "rejected => not a sentence"): THEOREM for the
+      modelled canonical LR(1) construction ([C11_clr_complete], [C11_clr_recognises_exactly]);
+      NOT proved for the modelled LALR and SLR constructions (it needs, for LALR, that the cores
+      of GOTO do not depend on lookaheads, and for SLR a FOLLOW-based lookahead invariant), so
+      agreement of the three accepted languages remains searched per instance against the oracle
+      [lang_upto], which is proved exact up to its bound, and against witnessed longer sentences;
     - that constructed tables pass [term_ok]: not proved, evaluated per table. *)
 Definition reduced (G : gram) : Prop :=
   (forall A, In A (nonterms G) -> exists u v, derives G [Nt (start G)] (u ++ Nt A :: v)) /\
@@ -358,6 +360,38 @@ Proof.
   split; [eauto|]. exact (C11_lalr_ok_implies_clr_ok G fuel1 t1 H1).
 Qed.
 
+(** COMPLETENESS of the modelled canonical LR(1) construction (no precedence declarations): for
+    every valid grammar, if [build_clr] returns a (conflict-free) table then the driver over that
+    table accepts every sentence of the grammar.  Proof (ProofsComplete.v): big-step induction on
+    the generation of the sentence — for an item [A -> alpha . X beta, a] of the state on top of
+    the stack, X =>* u and a remaining input compatible with (beta, a), the driver consumes u and
+    pushes GOTO(state, X): terminals are shifted; for X -> gamma the closure item [X -> . gamma, b]
+    with b the next input token is in the state (the LR(1) CLOSURE is closed, its fuel is proved
+    sufficient; b is in FIRST(beta a) because the computed nullable set and FIRST sets are
+    complete), gamma is processed symbol by symbol, and the reduce entry on b is the only entry
+    of its cell because the table is conflict-free.  With [C11_clr_parser_sound]: the accepted
+    language is exactly L(G). *)
+Theorem C11_clr_complete :
+  forall (G : gram) (fuel : nat) (tbl : table) (w : list nat),
+    valid_grammar G -> build_clr fuel G [] = BuiltOk tbl -> L G w ->
+    exists f evs, parse f tbl w = Accepted evs.
+Proof.
+  intros G fuel tbl w Hv Hb HL. destruct (canonical1 fuel G) as [C|] eqn:EC.
+  - exact (clr_complete G Hv fuel C EC tbl Hb w HL).
+  - unfold build_clr, finish, clr_raw in Hb. rewrite EC in Hb. discriminate.
+Qed.
+
+Theorem C11_clr_recognises_exactly :
+  forall (G : gram) (fuel : nat) (tbl : table) (w : list nat),
+    valid_grammar G -> build_clr fuel G [] = BuiltOk tbl ->
+    ((exists f evs, parse f tbl w = Accepted evs) <-> L G w).
+Proof.
+  intros G fuel tbl w Hv Hb. split.
+  - intros [f [evs Hp]].
+    destruct (C11_clr_parser_sound G fuel [] tbl f w evs (proj1 (proj1 Hv)) Hb Hp) as [HL _]. exact HL.
+  - apply (C11_clr_complete G fuel tbl w Hv Hb).
+Qed.
+
 (** Witness checker for long sentences: a production sequence accepted by [lm_check] is a
     leftmost derivation of the string. *)
 Theorem C11_witness_sound :
@@ -442,4 +476,6 @@ Print Assumptions C11_lalr_ok_implies_clr_ok.
 Print Assumptions C11_follow_fuel_suffices.
 Print Assumptions C11_slr_ok_implies_lalr_ok.
 Print Assumptions C11_chain.
+Print Assumptions C11_clr_complete.
+Print Assumptions C11_clr_recognises_exactly.
 Print Assumptions C11_d11a_unrepaired_table_refuted.
